@@ -3,6 +3,7 @@ package main
 import (
 	"fmt"
 	"go/token"
+	"go/types"
 	"sort"
 	"strings"
 
@@ -352,7 +353,7 @@ func checkC04(c *Ctx, r *Report) {
 			if !isC || k < 1000 {
 				return
 			}
-			fromParse := derivesFrom(x, func(v ssa.Value) bool {
+			fromParse := derivesFromDeep(x, nil, func(v ssa.Value, _ dctx) bool {
 				c2, ok := v.(*ssa.Call)
 				return ok && (calleeName(c2) == "strconv.ParseInt" || calleeName(c2) == "strconv.ParseUint" || calleeName(c2) == "strconv.Atoi")
 			})
@@ -361,69 +362,77 @@ func checkC04(c *Ctx, r *Report) {
 			}
 			nMul++
 			// an upper bound on the operand: a dominating fact  x > K = false  /  x <= K  /  x < K  with K*k within int64,
-			// or the operand is the result of min(x, K)
-			bounded := false
+			// the operand is the result of min(x, K), a merge of bounded alternatives, or the result of a same-package
+			// helper all of whose returns are bounded in one of these ways
 			limit := int64(9223372036854775807) / k
-			xs := atomStr(unconvNum(x))
-			for kf := range factStrs(f, in) {
-				// canonical forms from normAtom: "<x>>K=false"
-				if strings.HasPrefix(kf, xs+">") && strings.HasSuffix(kf, "=false") {
-					var kk int64
-					if _, err := fmt.Sscanf(strings.TrimSuffix(strings.TrimPrefix(kf, xs+">"), "=false"), "%d", &kk); err == nil && kk <= limit {
-						bounded = true
-					}
+			var boundedAbove func(fn *ssa.Function, site ssa.Instruction, x ssa.Value, depth int) bool
+			boundedAbove = func(fn *ssa.Function, site ssa.Instruction, x ssa.Value, depth int) bool {
+				if depth > 4 {
+					return false
 				}
-			}
-			if c2, ok := unconvNum(x).(*ssa.Call); ok {
-				if b, isB := c2.Call.Value.(*ssa.Builtin); isB && b.Name() == "min" {
-					for _, a := range c2.Call.Args {
-						if kk, isK := constInt(a); isK && kk <= limit {
-							bounded = true
+				if kk, isK := constInt(x); isK {
+					return kk <= limit
+				}
+				xs := atomStr(unconvNum(x))
+				for kf := range factStrs(fn, site) {
+					// canonical forms from normAtom: "<x>>K=false"
+					if strings.HasPrefix(kf, xs+">") && strings.HasSuffix(kf, "=false") {
+						var kk int64
+						if _, err := fmt.Sscanf(strings.TrimSuffix(strings.TrimPrefix(kf, xs+">"), "=false"), "%d", &kk); err == nil && kk <= limit {
+							return true
 						}
 					}
 				}
-			}
-			// the operand may be a phi that is clamped on one edge: accept a phi all of whose non-constant edges are bounded by facts
-			if phi, ok := unconvNum(x).(*ssa.Phi); ok && !bounded {
-				all := len(phi.Edges) > 0
-				for i, e := range phi.Edges {
-					if kk, isK := constInt(e); isK {
-						if kk > limit {
-							all = false
-						}
-						continue
-					}
-					pred := phi.Block().Preds[i]
-					es := atomStr(unconvNum(e))
-					okE := false
-					for kf := range factStrs(f, pred.Instrs[len(pred.Instrs)-1]) {
-						if strings.HasPrefix(kf, es+">") && strings.HasSuffix(kf, "=false") {
-							var kk int64
-							if _, err := fmt.Sscanf(strings.TrimSuffix(strings.TrimPrefix(kf, es+">"), "=false"), "%d", &kk); err == nil && kk <= limit {
-								okE = true
+				switch y := unconvNum(x).(type) {
+				case *ssa.Call:
+					if b, isB := y.Call.Value.(*ssa.Builtin); isB && b.Name() == "min" {
+						for _, a := range y.Call.Args {
+							if kk, isK := constInt(a); isK && kk <= limit {
+								return true
 							}
 						}
 					}
-					// the edge itself may be the bounded side of the test that ends the predecessor block
-					if iff, isIf := pred.Instrs[len(pred.Instrs)-1].(*ssa.If); isIf && !okE {
-						if a, pos := normAtom(iff.Cond, nil); strings.HasPrefix(a, es+">") {
-							var kk int64
-							if _, err := fmt.Sscanf(strings.TrimPrefix(a, es+">"), "%d", &kk); err == nil && kk <= limit {
-								// edge index 0 = condition true; bounded when (x>K) is false on this edge
-								for si, sc := range pred.Succs {
-									if sc == phi.Block() && ((si == 0) == pos) == false {
-										okE = true
+					if h := helperBody(y); h != nil && y.Type().String() != "" {
+						if _, isTuple := y.Type().(*types.Tuple); !isTuple {
+							return helperResultBounded(h, 0, func(ret *ssa.Return, v ssa.Value) bool { return boundedAbove(h, ret, v, depth+1) })
+						}
+					}
+				case *ssa.Extract:
+					if call, isCall := y.Tuple.(*ssa.Call); isCall {
+						if h := helperBody(call); h != nil {
+							return helperResultBounded(h, y.Index, func(ret *ssa.Return, v ssa.Value) bool { return boundedAbove(h, ret, v, depth+1) })
+						}
+					}
+				case *ssa.Phi:
+					all := len(y.Edges) > 0
+					for i, e := range y.Edges {
+						pred := y.Block().Preds[i]
+						last := pred.Instrs[len(pred.Instrs)-1]
+						okE := boundedAbove(fn, last, e, depth+1)
+						// the edge itself may be the bounded side of the test that ends the predecessor block
+						if iff, isIf := last.(*ssa.If); isIf && !okE {
+							es := atomStr(unconvNum(e))
+							if a, pos := normAtom(iff.Cond, nil); strings.HasPrefix(a, es+">") {
+								var kk int64
+								if _, err := fmt.Sscanf(strings.TrimPrefix(a, es+">"), "%d", &kk); err == nil && kk <= limit {
+									// edge index 0 = condition true; bounded when (x>K) is false on this edge
+									for si, sc := range pred.Succs {
+										if sc == y.Block() && ((si == 0) == pos) == false {
+											okE = true
+										}
 									}
 								}
 							}
 						}
+						if !okE {
+							all = false
+						}
 					}
-					if !okE {
-						all = false
-					}
+					return all
 				}
-				bounded = all
+				return false
 			}
+			bounded := boundedAbove(f, in, x, 0)
 			r.Check(bounded, "C04.R6", fmt.Sprintf("%s: seconds are bounded before they are scaled to a Duration (#%d)", fnKey(f), nMul), c.InstrPos(in), fmt.Sprintf("operand <= %d on every path", limit), fmt.Sprintf("the parsed max-age is multiplied by %d without an upper bound: values above %d seconds wrap around (a large positive max-age becomes negative or tiny, and the response is not stored or goes stale at once)", k, limit))
 		})
 	}
@@ -581,4 +590,25 @@ func checkC04(c *Ctx, r *Report) {
 		})
 	}
 	r.Floor("C04.R5", nGet, 3, "cache lookups in package proxy")
+}
+
+// helperResultBounded: every (non-recover) return of h hands back, as result idx, a value accepted by ok.
+func helperResultBounded(h *ssa.Function, idx int, ok func(ret *ssa.Return, v ssa.Value) bool) bool {
+	n, all := 0, true
+	eachInstr(h, func(in ssa.Instruction) {
+		ret, isRet := in.(*ssa.Return)
+		if !isRet || isRecoverReturn(ret) {
+			return
+		}
+		vals := retVals(ret)
+		if idx >= len(vals) {
+			all = false
+			return
+		}
+		n++
+		if !ok(ret, vals[idx]) {
+			all = false
+		}
+	})
+	return all && n > 0
 }
